@@ -125,10 +125,7 @@ func NewGated(limit int) *Gated {
 	g := &Gated{limit: limit, inflight: map[int]*gatedReq{}, all: map[int]*gatedReq{}, okKeys: map[string]string{}, everOK: map[string]string{}}
 	g.stats.PerKey = map[string]int{}
 	g.cond = sync.NewCond(&g.mu)
-	ln, err := net.Listen("tcp4", "127.0.0.1:0")
-	if err != nil {
-		panic(err)
-	}
+	ln := Listen()
 	g.ln = ln
 	g.srv = &http.Server{Handler: http.HandlerFunc(g.handle)}
 	go func() { _ = g.srv.Serve(ln) }()
